@@ -1,81 +1,36 @@
-import Pyrtma.Proofs.Manager
+import Pyrtma.Proofs.ManagerStats
 /-!
 # C18 — manager traffic statistics are exact
 
-Pure theorems about the counter (`ctrInc` = `Counter[t] += 1`), the TIMING payload (`timingEntries`) and the split of one
-MESSAGE_TRAFFIC interval into sub-messages (`chunks`, `trafficFrames`), for counters of every size.
+Per operation (pure theorems about the counter `ctrInc` = `Counter[t] += 1`, the TIMING payload `timingEntries` and the
+split of one MESSAGE_TRAFFIC interval into sub-messages `chunks` / `trafficFrames`, for counters of every size):
+`ctrInc_get`, `timing_exact`, `traffic_partition`, `traffic_empty`, `stats_not_counted`, `forward_counted`.
+
+Globally, for every history (`Proofs/ManagerStats.lean`; the ghost history `State.hist` records every frame `forward`
+handles and every report tick): `every_forward_counted` (each `forward` call marks its frame once and both counters move
+by exactly the marks made, at every depth of the nested recursion — a forward nested inside a removal inside a forward
+still counts its CLIENT_CLOSED / FAILED_MESSAGE / RTMA_LOG frame), `counts_exact_always` (after any history both counter
+tables *are* the tally of the frames handled outside a statistics send since the last report of their kind),
+`counts_exact_per_type`, `history_only_grows`.
 -/
 namespace Pyrtma.C18
 open Pyrtma.Mgr
 
 /-- `Counter[t]` -/
-def ctrGet (c : List (Int × Nat)) (t : Int) : Nat :=
-  match c.find? (·.1 == t) with
-  | some p => p.2
-  | none => 0
+abbrev ctrGet (c : List (Int × Nat)) (t : Int) : Nat := ctrVal c t
 
-def keys (c : List (Int × Nat)) : List Int := c.map (·.1)
+abbrev keys (c : List (Int × Nat)) : List Int := ctrKeys c
 
 theorem ctrInc_keys (c : List (Int × Nat)) (t : Int) :
-    keys (ctrInc c t) = if t ∈ keys c then keys c else keys c ++ [t] := by
-  unfold ctrInc keys
-  by_cases h : c.any (·.1 == t) = true
-  · have hm : t ∈ c.map (·.1) := by
-      simp only [List.any_eq_true, beq_iff_eq] at h
-      obtain ⟨p, hp, rfl⟩ := h; exact List.mem_map.mpr ⟨p, hp, rfl⟩
-    simp only [h, if_true, hm]
-    rw [List.map_map]; congr 1; funext p; simp only [Function.comp]; split <;> rfl
-  · have hm : t ∉ c.map (·.1) := by
-      intro hm; apply h
-      obtain ⟨p, hp, rfl⟩ := List.mem_map.mp hm
-      exact List.any_eq_true.mpr ⟨p, hp, by simp⟩
-    simp [h, hm]
+    keys (ctrInc c t) = if t ∈ keys c then keys c else keys c ++ [t] := ctrKeys_inc c t
 
 /-- every type appears at most once in the counter -/
-theorem ctrInc_nodup (c : List (Int × Nat)) (t : Int) (h : (keys c).Nodup) : (keys (ctrInc c t)).Nodup := by
-  rw [ctrInc_keys]; split
-  · exact h
-  · rename_i hn; exact List.nodup_append.mpr ⟨h, by simp, by intro a ha b hb; simp at hb; subst hb; exact fun e => hn (e ▸ ha)⟩
-
-theorem find_map_key (c : List (Int × Nat)) (g : Int × Nat → Int × Nat) (hk : ∀ p, (g p).1 = p.1) (t' : Int) :
-    (c.map g).find? (·.1 == t') = (c.find? (·.1 == t')).map g := by
-  induction c with
-  | nil => rfl
-  | cons p c ih =>
-    simp only [List.map_cons, List.find?_cons, hk]
-    cases (p.1 == t') <;> simp [ih]
+theorem ctrInc_nodup (c : List (Int × Nat)) (t : Int) (h : (keys c).Nodup) : (keys (ctrInc c t)).Nodup :=
+  ctrKeys_nodup_inc c t h
 
 /-- **Each handled message counts exactly once, against its own type** -/
 theorem ctrInc_get (c : List (Int × Nat)) (t t' : Int) :
-    ctrGet (ctrInc c t) t' = ctrGet c t' + (if t' = t then 1 else 0) := by
-  unfold ctrInc ctrGet
-  by_cases h : c.any (·.1 == t) = true
-  · simp only [h, if_true]
-    rw [find_map_key c _ (by intro p; split <;> rfl) t']
-    cases hf : c.find? (·.1 == t') with
-    | none =>
-      have : t' ≠ t := by
-        intro e; subst e
-        rw [List.find?_eq_none] at hf
-        simp only [List.any_eq_true] at h
-        obtain ⟨p, hp, hpt⟩ := h; exact hf p hp hpt
-      simp [this]
-    | some p =>
-      have hp : p.1 = t' := by simpa using List.find?_some hf
-      simp only [Option.map_some]
-      by_cases ht : t' = t
-      · subst ht; simp [hp]
-      · have : (p.1 == t) = false := by simp; rw [hp]; exact ht
-        simp [this, ht]
-  · have hf : c.any (·.1 == t) = false := Bool.eq_false_iff.mpr h
-    simp only [hf, Bool.false_eq_true, if_false, List.find?_append]
-    by_cases ht : t' = t
-    · subst ht
-      have : c.find? (·.1 == t') = none := by
-        rw [List.find?_eq_none]; intro p hp; have := List.any_eq_false.mp hf p hp; simpa using this
-      simp [this]
-    · have : ((t == t') = false) := by simp; exact fun e => ht e.symm
-      cases hc : c.find? (·.1 == t') <;> simp [this, ht]
+    ctrGet (ctrInc c t) t' = ctrGet c t' + (if t' = t then 1 else 0) := ctrVal_inc c t t'
 
 /-! ## TIMING_MESSAGE -/
 
@@ -84,13 +39,13 @@ a type out of range: in particular a negative type id is never attributed to `MA
 theorem timing_exact (cfg : Cfg) (c : List (Int × Nat)) (hn : (keys c).Nodup) (t : Int) :
     ctrGet (timingEntries cfg c) t =
       if 0 ≤ t ∧ t < cfg.maxTypes then u16 (ctrGet c t) else 0 := by
-  unfold timingEntries ctrGet
+  unfold timingEntries ctrGet ctrVal
   induction c with
   | nil => simp [u16]
   | cons p c ih =>
-    have hn' : (keys c).Nodup := by unfold keys at *; simp at hn; exact hn.2
+    have hn' : (keys c).Nodup := by unfold keys ctrKeys at *; simp at hn; exact hn.2
     have hnot : ∀ q ∈ c, q.1 ≠ p.1 := by
-      intro q hq e; unfold keys at hn; simp at hn; exact hn.1 q.2 (by rw [← e]; exact hq)
+      intro q hq e; unfold keys ctrKeys at hn; simp at hn; exact hn.1 q.2 (by rw [← e]; exact hq)
     have ih := ih hn'
     simp only [List.filter_cons, List.find?_cons]
     by_cases hr : (decide (0 ≤ p.1) && decide (p.1 < cfg.maxTypes)) = true
@@ -213,6 +168,83 @@ theorem forward_counted (cfg : Cfg) (s : State) (t t' : Int) (h : s.inTraffic = 
     (cfg.timing = true → ctrGet (countMsg cfg s t).counts t' = ctrGet s.counts t' + (if t' = t then 1 else 0)) := by
   unfold countMsg; simp only [h, Bool.false_eq_true, if_false]
   exact ⟨ctrInc_get _ _ _, fun ht => by simp only [ht, if_true]; exact ctrInc_get _ _ _⟩
+
+/-! ## Globally: the counters against the history of handled frames, for every history
+
+`State.hist` is a ghost history the model never reads (newest mark first): `forward` — the model of `forward_message` —
+pushes `Mark.fwd t stats` for every frame it handles (`t` its type, `stats` = "inside a statistics send"), at every
+depth of the recursion `forward → remove_module → send_client_close → forward`, `… → send_failed_message → forward`,
+`… → logger.error → forward`; a report pushes `Mark.timingTick` / `Mark.trafficTick` when it is out.
+`sinceTick tick hist` are the marks after the last `tick`; `handled e t` counts the marks `fwd t false` in `e`;
+`tallyOn [] e` is the counter table obtained by `Counter[t] += 1` for these marks, oldest first. -/
+
+/-- **Every frame is marked exactly once by the `forward` that handles it, and everything nested in it is counted.**
+For any fuel `n`, state and frame: the marks `forward` leaves are, oldest first, the frame's own (unless it is out of fuel
+or the manager has crashed: then nothing happens at all) and then those of the CLIENT_CLOSED / FAILED_MESSAGE / RTMA_LOG
+frames forwarded inside it at any depth (`e'`); all carry the statistics flag of the moment; and *both counters moved by
+exactly these marks* (`AccE.traffic`, `AccE.counts`: `+= 1` per mark outside a statistics send, nothing inside one), the
+clocks, the interval number and the statistics flag are unchanged. -/
+theorem every_forward_counted (cfg : Cfg) (n : Nat) (s : State) (g : Frame) :
+    ∃ e', Marks (nestedType cfg) s.inTraffic e' ∧
+      AccE cfg (fun _ => true) s (forward cfg n s g)
+        (e' ++ (if n = 0 ∨ s.crashed.isSome = true then [] else [.fwd g.mtype s.inTraffic])) :=
+  forward_accE cfg n s g
+
+/-- **Global counting theorem.**  After any history `rs` — any frames, readiness sets, socket failures, removals nested
+in deliveries nested in removals, log level, clock — the manager is outside the statistics context, `traffic_counter` is
+*exactly* the tally of the frames `forward_message` handled outside a statistics send since the last MESSAGE_TRAFFIC
+report, and `message_counts` that of those since the last TIMING_MESSAGE (empty when TIMING is off): equal as tables —
+same types, same counts, same (insertion) order. -/
+theorem counts_exact_always (cfg : Cfg) (rs : List Round) :
+    (run cfg rs).inTraffic = false ∧
+    (run cfg rs).traffic = tallyOn [] (sinceTick .trafficTick (run cfg rs).hist) ∧
+    (run cfg rs).counts = (if cfg.timing then tallyOn [] (sinceTick .timingTick (run cfg rs).hist) else []) :=
+  ⟨(run_statInv cfg rs).idle, (run_statInv cfg rs).traffic, (run_statInv cfg rs).counts⟩
+
+/-- …read per type: the traffic counter of type `t` is the number of `forward` calls for frames of type `t` made outside a
+statistics send since the start of the traffic interval, the TIMING counter (when on) the number since the last TIMING
+tick; each type is listed at most once, and a type is listed iff at least one such frame was handled (no count is
+attributed to a type that was not seen). -/
+theorem counts_exact_per_type (cfg : Cfg) (rs : List Round) (t : Int) :
+    ctrGet (run cfg rs).traffic t = handled (sinceTick .trafficTick (run cfg rs).hist) t ∧
+    (cfg.timing = true → ctrGet (run cfg rs).counts t = handled (sinceTick .timingTick (run cfg rs).hist) t) ∧
+    (keys (run cfg rs).traffic).Nodup ∧ (keys (run cfg rs).counts).Nodup ∧
+    (t ∈ keys (run cfg rs).traffic ↔ 0 < handled (sinceTick .trafficTick (run cfg rs).hist) t) ∧
+    (cfg.timing = true → (t ∈ keys (run cfg rs).counts ↔ 0 < handled (sinceTick .timingTick (run cfg rs).hist) t)) := by
+  obtain ⟨_, h1, h2⟩ := counts_exact_always cfg rs
+  have e0 : ∀ e, ctrVal (tallyOn [] e) t = handled e t := fun e => by rw [ctrVal_tallyOn]; simp [ctrVal]
+  have n0 : ∀ e, (ctrKeys (tallyOn [] e)).Nodup := fun e => tallyOn_nodup [] e (by simp [ctrKeys])
+  have p0 : ∀ e, CtrPos (tallyOn [] e) := fun e => tallyOn_pos [] e (fun _ h => by cases h)
+  refine ⟨by rw [h1]; exact e0 _, fun ht => by rw [h2]; simp only [ht, if_true]; exact e0 _, by rw [h1]; exact n0 _, ?_,
+    by rw [h1, ctrVal_pos_iff (p0 _), e0], fun ht => by rw [h2]; simp only [ht, if_true]; rw [ctrVal_pos_iff (p0 _), e0]⟩
+  rw [h2]; split
+  · exact n0 _
+  · simp [ctrKeys]
+
+/-- **The history is monotone**: one more round only adds marks in front of those made so far. -/
+theorem history_only_grows (cfg : Cfg) (rs : List Round) (r : Round) :
+    ∃ e, (run cfg (rs ++ [r])).hist = e ++ (run cfg rs).hist := by
+  unfold run; rw [List.foldl_append]; exact hist_suffix_step cfg _ r
+
+/-! ### Non-vacuity: a failed write inside a delivery — the CLIENT_CLOSED (33) and the FAILED_MESSAGE (8) forwarded inside
+the removal that is nested in the forward of frame 7 (type 5000) are counted; the TIMING report itself (80) is not -/
+def exSub (u k lo hi : Nat) : Read := { uid := u, h := { k := k, mtype := 15, nbytes := 4 }, avail := 4, pay := [lo, hi, 0, 0] }
+def exConn (u k : Nat) (id : Int) : Read := { uid := u, h := { k := k, mtype := 13, src := id } }
+def exHist : List Round :=
+  [{ accept := true }, { accept := true }, { accept := true },
+   { reads := [exConn 1 1 10, exConn 2 2 11, exConn 3 3 12], writable := [1, 2, 3] },
+   { reads := [exSub 1 4 136 19, exSub 2 5 33 0, exSub 3 6 8 0], writable := [1, 2, 3] },
+   { failSet := [(1, some .hdr)], reads := [{ uid := 2, h := { k := 7, mtype := 5000 } }], writable := [1, 2, 3] }]
+example : (run {} exHist).hist = [.fwd 8 false, .fwd 33 false, .fwd 5000 false, .fwd 32 false, .fwd 32 false, .fwd 32 false] ∧
+    (run {} exHist).traffic = [(32, 3), (5000, 1), (33, 1), (8, 1)] ∧ (run {} exHist).counts = [(32, 3), (5000, 1), (33, 1), (8, 1)] := by
+  decide
+example : (run {} (exHist ++ [{ dt := 950 }])).hist =
+      [.timingTick, .fwd 80 true, .fwd 8 false, .fwd 33 false, .fwd 5000 false, .fwd 32 false, .fwd 32 false, .fwd 32 false] ∧
+    (run {} (exHist ++ [{ dt := 950 }])).counts = [] ∧
+    (run {} (exHist ++ [{ dt := 950 }])).traffic = [(32, 3), (5000, 1), (33, 1), (8, 1)] := by
+  decide
+example : handled (sinceTick .trafficTick (run {} exHist).hist) 33 = 1 ∧ handled (sinceTick .timingTick (run {} (exHist ++ [{ dt := 950 }])).hist) 33 = 0 := by
+  decide
 
 /-! ### Non-vacuity: with 4 slots per sub-message, 10 distinct types make three sub-messages of 4, 4 and 2 entries -/
 def exCfg : Cfg := { trafficSize := 4 }
